@@ -227,7 +227,20 @@ def do_run(prop, mod, tier, seed, workdir, t0):
             if sum(1 for x in samples if x["sub"] == key) < 4:
                 samples.append({"sub": key, "backend": t["backend"], **s})
         if res.get("extra"):
-            extras.setdefault(key, []).append(res["extra"])
+            ex_ = res["extra"]
+            # sub-checks whose one "case" sweeps many inner cases report them here (distinct by construction)
+            if isinstance(ex_, dict) and "inner_evaluations" in ex_:
+                evals += ex_["inner_evaluations"]
+                ps["evaluations"] += ex_["inner_evaluations"]
+                nt_counted += ex_.get("inner_nontrivial", 0)
+                ps["nontrivial"] += ex_.get("inner_nontrivial", 0)
+            agg = extras.setdefault(key, {})
+            if isinstance(ex_, dict):
+                for k_, v_ in ex_.items():
+                    if isinstance(v_, (int, float)):
+                        agg[k_] = agg.get(k_, 0) + v_
+                    else:
+                        agg.setdefault(k_, v_)
         for fl in res["failures"]:
             ps["failures"] += 1
             violations.append((key, t["backend"], fl))
